@@ -942,7 +942,7 @@ def reference_inputs(rng, d):
     return {'levels': gt.levels, 'genes': genes, 'qgenes': qgenes, 'encoding': enc}
 
 
-def stage_jobs(sb, src, info, tag, params, pre=None):
+def stage_jobs(sb, src, info, tag, params, pre=None, copy_data_over=False):
     ind = sb / 'in'
     for fn in ('ref.h5ad', 'stats.h5'):
         if not (ind / fn).exists():
@@ -959,7 +959,8 @@ def stage_jobs(sb, src, info, tag, params, pre=None):
     jobs = [
         {'label': f'stats-{tag}', 'stage': 'stats', 'roots': roots, 'pre': pre,
          'args': {'h5ad': str(ind / 'ref.h5ad'), 'levels': info['levels'], 'out': str(sb / 'out' / 'stats_out.h5'),
-                  'rows_at_a_time': params['rows'], 'tmp_dir': tmp, 'n_processors': params['np']}},
+                  'rows_at_a_time': params['rows'], 'tmp_dir': tmp, 'n_processors': params['np'],
+                  'copy_data_over': copy_data_over}},
         {'label': f'refmarkers-{tag}', 'stage': 'refmarkers', 'roots': roots,
          'args': {'stats': str(ind / 'stats.h5'), 'out': str(sb / 'out' / 'refm_out.h5'), 'tmp_dir': tmp,
                   'n_processors': params['np']}},
@@ -998,7 +999,10 @@ def history_stages(ctx, k):
     plant = {'plant': {'dirs': [str(shared / 'tmp'), str(shared / 'out')], 'seed': rng.randrange(10 ** 6)}}
     j0 = stage_jobs(fresh, src, info, 'undisturbed', params)
     j1 = stage_jobs(shared, src, info, 'stale', params, pre=plant)
-    j2 = stage_jobs(shared, src, info, 'again', params)
+    # the third round runs the statistics stage with copy_data_over=True (the reference is copied into a buffer
+    # directory inside the stage's own scratch sub-directory first): same statistics, nothing left behind
+    j2 = stage_jobs(shared, src, info, 'again', params, copy_data_over=True)
+    ctx.dist('stats-stage.copy_data_over', 'False x2, True x1')
     recs = run_batches(ctx, [j0 + j1 + j2], f'stages{k}')[0]
     for i, rec in enumerate(recs):
         hist = ['undisturbed', 'stale-files-planted', 'success-after-success'][i // 3]
